@@ -103,6 +103,9 @@ fn is_html_integration_point_in_svg(tag_name: LocalNameHash) -> bool {
 pub(crate) struct TreeBuilderSimulator {
     ns_stack: Vec<Namespace>,
     current_ns: Namespace,
+    /// A self-closing `<svg/>` or `<math/>` is in the foreign namespace itself, but has no
+    /// content: its namespace is left again before the next tag is looked at.
+    leave_ns_before_next_tag: bool,
     ambiguity_guard: AmbiguityGuard,
     strict: bool,
 }
@@ -114,6 +117,7 @@ impl TreeBuilderSimulator {
         let mut simulator = Self {
             ns_stack: Vec::with_capacity(DEFAULT_NS_STACK_CAPACITY),
             current_ns: Namespace::Html,
+            leave_ns_before_next_tag: false,
             ambiguity_guard: AmbiguityGuard::default(),
             strict,
         };
@@ -131,10 +135,12 @@ impl TreeBuilderSimulator {
             self.ambiguity_guard.track_start_tag(tag_name)?;
         }
 
+        self.leave_self_closed_foreign_root();
+
         Ok(if tag_name == Tag::Svg {
-            self.enter_ns(Namespace::Svg)
+            self.enter_foreign_root(Namespace::Svg)
         } else if tag_name == Tag::Math {
-            self.enter_ns(Namespace::MathML)
+            self.enter_foreign_root(Namespace::MathML)
         } else if self.current_ns != Namespace::Html {
             self.get_feedback_for_start_tag_in_foreign_content(tag_name)
         } else {
@@ -146,6 +152,8 @@ impl TreeBuilderSimulator {
         if self.strict {
             self.ambiguity_guard.track_end_tag(tag_name);
         }
+
+        self.leave_self_closed_foreign_root();
 
         if self.current_ns == Namespace::Html {
             self.check_integration_point_exit(tag_name)
@@ -182,6 +190,32 @@ impl TreeBuilderSimulator {
         self.ns_stack.push(ns);
         self.current_ns = ns;
         TreeBuilderFeedback::SetAllowCdata(ns != Namespace::Html)
+    }
+
+    /// `<svg>` and `<math>` enter foreign content, unless they are self-closing: then only the
+    /// tag itself is foreign, and what follows it is parsed as before.
+    fn enter_foreign_root(&mut self, ns: Namespace) -> TreeBuilderFeedback {
+        request_lexeme(move |this, lexeme| {
+            expect_tag!(lexeme, StartTag { self_closing, .. } => {
+                let outer_ns = this.current_ns;
+                let feedback = this.enter_ns(ns);
+
+                if self_closing {
+                    this.leave_ns_before_next_tag = true;
+                    TreeBuilderFeedback::SetAllowCdata(outer_ns != Namespace::Html)
+                } else {
+                    feedback
+                }
+            })
+        })
+    }
+
+    #[inline]
+    fn leave_self_closed_foreign_root(&mut self) {
+        if self.leave_ns_before_next_tag {
+            self.leave_ns_before_next_tag = false;
+            let _ = self.leave_ns();
+        }
     }
 
     #[inline]
